@@ -24,6 +24,8 @@ unsafe fn match_url_char_32_avx(buf: &[u8]) -> usize {
     // NOTE: This check might be not necessary since this function is only used in
     // `match_uri_vectored` where buffer overflow is taken care of.
     debug_assert!(buf.len() >= 32);
+    #[cfg(httparse_verif)]
+    crate::iter::verif_counters::AVX2_LOADS.fetch_add(1, core::sync::atomic::Ordering::Relaxed);
 
     #[cfg(target_arch = "x86")]
     use core::arch::x86::*;
@@ -97,6 +99,8 @@ pub unsafe fn match_header_value_vectored(bytes: &mut Bytes) {
 #[allow(unused)]
 unsafe fn match_header_value_char_32_avx(buf: &[u8]) -> usize {
     debug_assert!(buf.len() >= 32);
+    #[cfg(httparse_verif)]
+    crate::iter::verif_counters::AVX2_LOADS.fetch_add(1, core::sync::atomic::Ordering::Relaxed);
 
     #[cfg(target_arch = "x86")]
     use core::arch::x86::*;
